@@ -1,10 +1,14 @@
 import DimodModel.Vars
+import DimodModel.VarsMore
+import DimodModel.VarsKeys
 import DimodModel.Wire
 open Wire
 
 /-! Line-protocol driver for the `Variables` model.  Every line is one operation; the answer is
-    `<ok|err> <labels>;<sparse index→label entries>;<size of label→index>;<stop> | <ok|err> <spec list>`
-    where the second half is the *list specification* run on the same history. -/
+    `<ok|err> <labels>;<sparse index→label entries>;<size of label→index>;<stop> | <ok|err> <spec list>[ | <exception class>]`
+    where the second part is the *list specification* run on the same history and the third (only for a raising
+    call) the exception class the model names (from `Generated.VarsRules`).  Reader lines (`index`, `at`,
+    `contains`, `iter`, `autolabel`, `eqseq`, `eqset`, `restore`) answer without changing the state. -/
 
 def showLabels (l : List Label) : String := String.intercalate "," (l.map showLabel)
 
@@ -31,21 +35,126 @@ def parseOp (line : String) : Option VState.Op :=
 
 def tag (b : Bool) : String := if b then "ok" else "err"
 
+def parseOptInt (s : String) : Option (Option Int) := if s = "-" then some none else s.toInt?.map some
+
+def parseLabels (s : String) : Option (List Label) := (csv s).mapM parseLabel?
+
+def parseOptLabels (s : String) : Option (List (Option Label)) :=
+  (csv s).mapM fun x => if x = "~" then some none else (parseLabel? x).map some
+
+def parseOp2 (line : String) : Option VState.Op2 :=
+  match line.trimAscii.toString.splitOn " " with
+  | ["extend", p, ls] => (parseOptLabels ls).map fun vs => .extend vs (p = "1")
+  | ["copy"] => some .copy
+  | ["pickle"] => some .pickle
+  | ["slice", a, b, c] => do
+      let a ← parseOptInt a; let b ← parseOptInt b; let c ← parseOptInt c
+      pure (.slice ⟨a, b, c⟩)
+  | _ => (parseOp line).map .base
+
+def showErr : Generated.VarsRules.Err → String
+  | .value => "ValueError" | .index => "IndexError" | .type => "TypeError" | .key => "KeyError" | .runtime => "RuntimeError"
+
+/-- Python objects: `I:`int `B:`0|1 `F:`integral float `NI:`numpy int `NF:`numpy float `s:`hex `T:[..+..]` -/
+partial def parsePyKeyChars (cs : List Char) : Option PyKey :=
+  match cs with
+  | 'I' :: ':' :: t => (String.ofList t).toInt?.map PyKey.int
+  | 'B' :: ':' :: t => (String.ofList t).toInt?.map fun z => PyKey.bool (z != 0)
+  | 'F' :: ':' :: t => (String.ofList t).toInt?.map PyKey.float
+  | 'N' :: 'I' :: ':' :: t => (String.ofList t).toInt?.map PyKey.npInt
+  | 'N' :: 'F' :: ':' :: t => (String.ofList t).toInt?.map PyKey.npFloat
+  | 's' :: ':' :: t => some (PyKey.str (hexString t))
+  | 'T' :: ':' :: '[' :: t =>
+    match t.reverse with
+    | ']' :: r =>
+      let inner := r.reverse
+      if inner.isEmpty then some (PyKey.tup [])
+      else (splitTop inner).mapM parsePyKeyChars |>.map PyKey.tup
+    | _ => none
+  | _ => none
+
+def parsePyKey? (s : String) : Option PyKey := parsePyKeyChars s.toList
+
+/-- the object-level state after `Variables(objs)` (permissive appends as coded) -/
+def kOfList (objs : List PyKey) : KState :=
+  objs.foldl (fun k o => if k.count o then k else k.append o) { i2l := [], l2i := [], stop := 0 }
+
+/-- alias lines: `canon o`, `pyeq a b`, `kcount o1,o2,… q` (count / index of `q` in `Variables([o1, o2, …])`
+    computed on the object-level model, and the label-level state it abstracts to) -/
+def aliasLine (line : String) : Option String :=
+  match line.trimAscii.toString.splitOn " " with
+  | ["canon", o] => (parsePyKey? o).map fun k => s!"ok {showLabel (PyKey.canon k)}"
+  | ["pyeq", a, b] => do
+      let a ← parsePyKey? a; let b ← parsePyKey? b
+      pure s!"ok {if PyKey.pyEq a b then 1 else 0}"
+  | ["kcount", os, q] => do
+      let objs ← (csv os).mapM parsePyKey?
+      let q ← parsePyKey? q
+      let k := kOfList objs
+      let c := k.count q
+      pure s!"ok {if c then 1 else 0} {if c then toString (k.idxOf q) else "-"} {showState k.toV}"
+  | ["khist", ops] => do
+      -- object-level history: `+o`/`?o` append (strict / permissive), `+~` auto-append, `p` pop, `c` clear,
+      -- `r` relabel-as-integers, `xo` remove, `R:k>v|k>v…` relabel (`R:` alone = empty mapping)
+      let parsed ← (csv ops).mapM fun (t : String) =>
+        match t.toList with
+        | ['p'] => some (KState.KOp2.base .pop)
+        | ['c'] => some (KState.KOp2.base .clear)
+        | ['r'] => some (KState.KOp2.base .relabelInts)
+        | '+' :: '~' :: [] => some (KState.KOp2.base (.append none false))
+        | '+' :: r => (parsePyKeyChars r).map fun o => KState.KOp2.base (.append (some o) false)
+        | '?' :: r => (parsePyKeyChars r).map fun o => KState.KOp2.base (.append (some o) true)
+        | 'x' :: r => (parsePyKeyChars r).map KState.KOp2.remove
+        | 'R' :: ':' :: r =>
+          if r.isEmpty then some (KState.KOp2.relabel []) else
+          ((String.ofList r).splitOn "|").mapM (fun (kv : String) => match kv.splitOn ">" with
+            | [a, b] => do let a ← parsePyKey? a; let b ← parsePyKey? b; pure (a, b)
+            | _ => none) |>.map KState.KOp2.relabel
+        | _ => none
+      let (k, flags) := parsed.foldl (fun (acc : KState × List Bool) op => ((acc.1.step2 op).1, acc.2 ++ [(acc.1.step2 op).2]))
+        ({ i2l := [], l2i := [], stop := 0 }, [])
+      let objs := (List.range k.stop).map fun i => showLabel (PyKey.canon (k.labelAt i))
+      pure s!"ok {String.intercalate "" (flags.map fun b => if b then "1" else "0")} {showState k.toV} {String.intercalate "," objs}"
+  | _ => none
+
 def step (st : VState × List Label) (line : String) : (VState × List Label) × String :=
   match line.trimAscii.toString.splitOn " " with
   | ["index", l] => match parseLabel? l with
-    | some v => (st, match st.1.index? v with | some i => s!"ok {i}" | none => "err")
+    | some v => (st, match st.1.index? v with | some i => s!"ok {i}" | none => s!"err {showErr VState.errIndex}")
     | none => (st, "bad-op")
   | ["at", i] => match i.toInt? with
-    | some i => (st, match st.1.at? i with | some l => s!"ok {showLabel l}" | none => "err")
+    | some i => (st, match st.1.at? i with | some l => s!"ok {showLabel l}" | none => s!"err {showErr VState.errAt}")
     | none => (st, "bad-op")
+  | ["contains", l] => match parseLabel? l with
+    | some v => (st, s!"ok {if st.1.contains v then 1 else 0}")
+    | none => (st, "bad-op")
+  | ["iter"] => (st, s!"ok {showLabels st.1.iter};{st.1.len}")
+  | ["autolabel"] => (st, s!"ok {showLabel st.1.autoLabelG}")
+  | ["eqseq", ls] => match parseLabels ls with
+    | some o => (st, s!"ok {if st.1.eqOther (.seq o) then 1 else 0}")
+    | none => (st, "bad-op")
+  | ["eqset", ls] => match parseLabels ls with
+    | some o => (st, s!"ok {if st.1.eqOther (.set o) then 1 else 0}")
+    | none => (st, "bad-op")
+  | ["restore"] =>
+    -- m = v._relabel_as_integers(); v._relabel(m): state in between, returned mapping, state after
+    let (s1, back) := st.1.relabelAsIntegers
+    let m := VState.restoreMap back
+    let ms := String.intercalate "," (m.map fun p => s!"{showLabel p.1}={showLabel p.2}")
+    match s1.relabel m with
+    | some s2 => (st, s!"ok {showState s1} / {ms} / {showState s2}")
+    | none => (st, s!"err {showState s1} / {ms}")
   | _ =>
-    match parseOp line with
+    match aliasLine line with
+    | some out => (st, out)
+    | none =>
+    match parseOp2 line with
     | none => (st, "bad-op")
     | some op =>
-      let (s', ok) := st.1.step op
-      let (l', ok') := LSpec.step st.2 op
-      ((s', l'), s!"{tag ok} {showState s'} | {tag ok'} {showLabels l'}")
+      let (s', ok) := st.1.step2 op
+      let (l', ok') := LSpec.step2 st.2 op
+      let cls := if ok then "" else " | " ++ showErr (VState.errClass op)
+      ((s', l'), s!"{tag ok} {showState s'} | {tag ok'} {showLabels l'}{cls}")
 
 partial def loop (h : IO.FS.Stream) (st : VState × List Label) : IO Unit := do
   let line ← h.getLine
